@@ -172,6 +172,14 @@ def check_property_file(pid):
     return rc == 0, theorems, assumptions, out
 
 
+def coqchk(pid):
+    """independent re-check of Properties/<pid>.vo and everything it depends on (thorough tier); returns (ok, axioms text)"""
+    rc, out = sh(["timeout", "3000", "coqchk", "-silent", "-o", "-Q", ".", "VF", "VF.Properties." + pid], cwd=COQ, timeout=3100)
+    m = re.search(r"\* Axioms:(.*?)\n\s*\n\* Constants/Inductives relying on type-in-type:(.*?)\n\s*\n", out, re.S)
+    ax = " ".join(m.group(1).split()) if m else "?"
+    return rc == 0 and ax == "<none>", "coqchk -silent -o VF.Properties.%s: exit %d, axioms: %s" % (pid, rc, ax if m else out.strip()[-300:])
+
+
 def run_exec(exe, lines, shards=1, timeout=1800, env=None, cwd=None):
     """Feed case lines to an executable, one output line per input line.  Shards run in parallel."""
     if not lines:
